@@ -193,7 +193,10 @@ func MannWhitneyUTest(x1, x2 []float64, alt LocationHypothesis) (*MannWhitneyUTe
 			p = dist.CDF(U1)
 
 		case LocationGreater:
-			p = 1 - dist.CDF(U1-1)
+			// With ties U takes half-integer values, so
+			// P(U >= U1) = 1 - P(U <= U1-0.5). Without ties
+			// the CDF rounds its argument down to U1-1.
+			p = 1 - dist.CDF(U1-0.5)
 		}
 	} else {
 		// Use normal approximation (with tie and continuity
